@@ -14,14 +14,20 @@
    - C03_take_after_drain: when everything queued has been taken, a take on a closed writer reports
      the closed channel and a take on an open one waits - a requester is never handed a nil packet
      in place of an answer it is owed.
-   PARTIAL: node, port and process teardown (tracer close, port close with late listeners, exit
-   hooks) are not modelled; they are enumerated on the implementation: src -> A -> B -> sink with
+   - C03_node_close_releases (Node/CloseProofs.v): when a node is closed (Tracer.Close) after any sequence of calls
+     that keeps the node discipline, every request the node has read is answered exactly once by the time the close
+     returns - with its real answer before, or with a dropped-packet error at the close - and the tracer keeps
+     nothing; the real Tracer.Close is compared with the model on sequences closed with requests still waiting.
+   PARTIAL: port and process teardown (port close with late listeners, exit hooks) reduce to closes of readers and
+   writers, which the first three theorems cover per writer, but their composition into a workflow is not modelled; they are enumerated on the implementation: src -> A -> B -> sink with
    actions held open, a request brought to each point of its way (in A, in B, at the sink), with a
    pipelined second request and a request of another process on the same nodes, then one or two of
    ten teardown actions; every requester must return within 1.5 s with its real answer or a
    dropped-packet error, without panic, and unaffected requesters must get their real answer. *)
 From Coq Require Import List Arith NArith ZArith Bool.
 From Uf Require Import Packet.Writer Packet.WriterProofs Packet.Teardown.
+From Coq Require Import Permutation.
+From Uf Require Node.Tracer Node.TracerProofs Node.Spec Node.Refine Node.CloseProofs.
 Import ListNotations.
 
 Theorem C03_closed_all_answered : forall n ops,
@@ -53,3 +59,15 @@ Example C03_ex :
   snd (td_run (td_init 1) [TdW (WLink 0); TdW (WWrite (PAtom 1)); TdW (WWrite (PAtom 2)); TdW WCloseWriter; TdTake; TdTake; TdTake]) =
   [Got dropped; Got dropped; Closed].
 Proof. vm_compute. reflexivity. Qed.
+
+Theorem C03_node_close_releases : forall ops r, Node.Spec.disciplined ops = true ->
+  Permutation (Node.TracerProofs.out_of r (Node.Tracer.t_close (Node.Tracer.t_run ops)))
+              (Node.TracerProofs.issued r Node.Tracer.t_init ops) /\
+  Node.Tracer.t_reads (Node.Tracer.t_close (Node.Tracer.t_run ops)) = [] /\
+  Node.Tracer.t_reader (Node.Tracer.t_close (Node.Tracer.t_run ops)) = [] /\
+  Node.Tracer.t_receives (Node.Tracer.t_close (Node.Tracer.t_run ops)) = [] /\
+  Node.Tracer.t_sources (Node.Tracer.t_close (Node.Tracer.t_run ops)) = [] /\
+  Node.Tracer.t_targets (Node.Tracer.t_close (Node.Tracer.t_run ops)) = [] /\
+  Node.Tracer.t_writes (Node.Tracer.t_close (Node.Tracer.t_run ops)) = [].
+Proof. exact Node.CloseProofs.close_releases_all. Qed.
+Print Assumptions C03_node_close_releases.
